@@ -136,6 +136,9 @@ pub struct Interpreter<'a, R: RealNumberInternalTrait> {
     library_instances: HashMap<LibraryName, Library<R>>,
     imported_library: HashSet<LibraryName>,
     import_end: bool, // indicate program's import declaration part end
+    // macros defined by this interpreter's programs: a child scope of the bundled syntax table,
+    // so that they are neither seen by other interpreters nor able to damage the bundled table
+    syntax_env: Rc<LexicalScope<Transformer>>,
     pub program_directory: Option<PathBuf>,
     _marker: PhantomData<R>,
 }
@@ -154,6 +157,7 @@ impl<'a, R: RealNumberInternalTrait> Interpreter<'a, R> {
             library_instances: HashMap::new(),
             imported_library: HashSet::new(),
             import_end: false,
+            syntax_env: Rc::new(LexicalScope::new_child(create_syntax_binding())),
             program_directory: None,
             _marker: PhantomData,
         };
@@ -734,6 +738,7 @@ impl<'a, R: RealNumberInternalTrait> Interpreter<'a, R> {
         {
             let lexer = Lexer::from_char_stream(char_stream);
             let mut parser = Parser::from_lexer(lexer);
+            parser.syntax_env = self.syntax_env.clone();
             parser.try_fold(None, |_, statement| self.eval_root_ast(&statement?))
         }
     }
